@@ -815,6 +815,9 @@ Viol(sh, ev) ==
     [] ev.e = "bhe"     -> ViolBhe(sh, ev)
     [] ev.e = "bs"      -> ViolBs(sh, ev)
     [] ev.e = "synth"   -> ViolSynthObs(sh, ev)
+    \* a synthetic event is delivered in the dispatch whose before_sleep returned it, not in a later one (O15: events left
+    \* behind by a dispatch that failed after the hook)
+    [] ev.e = "synth_pe" -> If(ev.s \notin sh.synthWanted, {<<"C14", "synthetic_event_of_an_earlier_dispatch_delivered">>})
     [] ev.e = "idle_run" -> ViolIdleRun(sh, ev)
     [] ev.e = "lookup"  -> ViolLookup(sh, ev)
     [] ev.e = "snap"    -> ViolSnap(sh, ev) \cup ViolFutures(sh)
